@@ -211,7 +211,7 @@ macro_rules! try_targets {
     }};
 }
 
-fn typed(rep: &mut Report) {
+pub fn typed(rep: &mut Report) {
     let t0 = std::time::Instant::now();
     let mut cases: Vec<String> = Vec::new();
     for (lit, _) in LITS {
